@@ -4,8 +4,11 @@ import (
 	"bytes"
 	"encoding/binary"
 	"fmt"
+	"io"
+	"log"
 	"math"
 	"net"
+	"os"
 	"runtime"
 	"strings"
 	"sync"
@@ -217,7 +220,7 @@ func recMode(r core.Record) int {
 
 func c14Records(t *rapid.T, rec *ev.Rec) {
 	seed := rapid.Uint64().Draw(t, "seed")
-	cls := gen.Weighted(t, "class", []int{24, 22, 20, 8, 3, 5, 18})
+	cls := gen.Weighted(t, "class", []int{25, 23, 20, 8, 3, 3, 18})
 	var rc recCase
 	wantPanic := ""
 	switch cls {
@@ -945,7 +948,7 @@ var wireOnce = sync.OnceValue(func() *wirePair {
 func c14Wire(t *rapid.T, rec *ev.Rec) {
 	seed := rapid.Uint64().Draw(t, "seed")
 	raw := gen.Chance(t, "raw echo", 50)
-	budgetCls := gen.Weighted(t, "budget", []int{80, 14, 6})
+	budgetCls := gen.Weighted(t, "budget", []int{82, 14, 4})
 	budget := []int{20000, 300000, c14MaxMsg}[budgetCls]
 	if raw {
 		budget = min(budget, (c14MaxMsg-16)/2)
@@ -1149,6 +1152,8 @@ func clip(s string, at int) string {
 func c14Limits(t *testing.T, rec *ev.Rec) {
 	saveAction, saveExit := options.Action, core.Exit
 	defer func() { options.Action, core.Exit = saveAction, saveExit }()
+	log.SetOutput(io.Discard) // Fatal logs before it exits
+	defer log.SetOutput(os.Stderr)
 	type fatal struct{}
 	core.Exit = func(int) { panic(fatal{}) }
 	for _, action := range []string{"server", "client"} {
@@ -1184,9 +1189,9 @@ func TestC14(t *testing.T) {
 	}
 	defer rec.Write()
 
-	rt.Check(t, rec, "records", 5000, 60000, func(t *rapid.T) { c14Records(t, rec) })
-	rt.Check(t, rec, "stor", 4000, 60000, func(t *rapid.T) { c14Stor(t, rec) })
+	rt.Check(t, rec, "records", 3500, 60000, func(t *rapid.T) { c14Records(t, rec) })
+	rt.Check(t, rec, "stor", 3000, 60000, func(t *rapid.T) { c14Stor(t, rec) })
 	rt.Check(t, rec, "varint", 2000, 20000, func(t *rapid.T) { c14Varint(t, rec) })
-	rt.Check(t, rec, "wire", 5000, 100000, func(t *rapid.T) { c14Wire(t, rec) })
+	rt.Check(t, rec, "wire", 4500, 100000, func(t *rapid.T) { c14Wire(t, rec) })
 	c14Limits(t, rec)
 }
